@@ -47,7 +47,7 @@ SPECIAL = [
     '[Na+].[O-]c1ccccc1', '[K+].[K+].[O-]C(=O)C(=O)[O-]', 'CC[N+](CC)(CC)CC.[O-]Cl(=O)(=O)=O', '[Li+].[AlH4-]', '[Na+].[BH4-]',
     '[H][H]', '[H+]', '[H-]', '[He]', '[Xe]', 'F[Xe]F', '[U+6]', 'O=[U+2]=O', '[Cl-].[Cl-].[Zn+2]',
     'c1ccc2c(c1)c1ccccc1c1ccccc21', 'c1ccc2c(c1)c1ccccc21', 'c1cc2ccc3ccc4ccc5ccc6ccc1c1c2c3c4c5c61', 'c1cc2ccc3cccc4ccc(c1)c2c34', 'c1ccc2cc3cc4ccccc4cc3cc2c1',
-    'c1ccc2c(c1)ccc1c2ccc2ccccc21', 'C1C2CC3CC1CC(C2)C3', 'CC12CC3CC(CC(C3)C1)C2', 'C1C2C3CC1C1C(CCCC1C3)C2', 'C1CC2(CC2)C12CC2', 'C1CC2(CC2)C2(CC2)C12CC2', 'C1CC2(CCC2)C12CC2', 'C1CCC2(CC2)C12CCC2', 'C1CC2(CC2)CC12CC2',
+    'c1ccc2c(c1)ccc1c2ccc2ccccc21', 'C1C2CC3CC1CC(C2)C3', 'CC12CC3CC(CC(C3)C1)C2', 'C1C2C3CC1C1C(CCCC1C3)C2', 'C1CC2(CC2)C12CC2', 'C1CC2(CC2)C2(CC2)C12CC2', 'C1CC2(CCC2)C12CC2', 'C1CCC2(CC2)C12CCC2', 'C1CC2(CC2)CC12CC2', 'C1CCC2(CCCCCCC2)CCCC1', 'C1CCCC2(CCCCCCCCC2)CCCCC1', 'C1CCCC2(CC1)CCCCCC2',
     '[2H][C@](F)(Cl)Br', 'C[C@]([2H])(O)CC', 'N[C@@]([2H])(C)C(=O)O', '[3H][C@]1(N)CCCO1',
     # unbonded hydrogens in mixtures, main-group hydrides
     '[H+].[Cl-]', '[Na+].[H-]', 'C[NH3+].[H-]', '[H+].[H+].[O-]S([O-])(=O)=O', '[SiH4]', '[GeH4]',
